@@ -2,10 +2,16 @@
 """Regenerates MANIFEST.json from the table below (keeps it schema-valid at all times)."""
 import json, os
 HERE = os.path.dirname(os.path.abspath(__file__))
+TB = "Trusts CPython typing/ast, pydantic.v1, attrs/dataclasses introspection and the oracle code in j2mverif/ (exercised against the pre-fix tree and seeded breakages); sqlmodel is a stub. Held on the executions produced, not a proof."
 CHECKS = {
     "C01": dict(category="exploration", technique="runtime monitoring: acceptance monitor replaying every sample against the loaded emitted module (pydantic parse_obj + independent structural acceptor)",
-                text="Every generated execution (sample list x options) is replayed against the module obtained by executing the emitted text; held on N executions, not a proof.",
-                note="Trusts CPython typing/ast, pydantic.v1 validator, attrs/dataclasses introspection, the oracle code in j2mverif/oracle.py; sqlmodel is a stub.", ref="4 C01"),
+                text="Every generated execution (sample list x options) is replayed against the module obtained by executing the emitted text.", note=TB, ref="4 C01"),
+    "C02": dict(category="exploration", technique="runtime monitoring: tightness monitor - sample values routed to every position of the loaded class graph must justify each Optional / union member / Literal / Any",
+                text="Per execution, every position of the emitted class graph is checked against the multiset of sample values routed to it.", note=TB, ref="4 C02"),
+    "C03": dict(category="exploration", technique="runtime monitoring: load monitor (compile+exec of emitted text, annotations evaluated in scope) + ast census over key-style workloads",
+                text="Every emitted module is executed with only its own imports and its annotations evaluated in scope; names are censused from the ast.", note=TB, ref="4 C03"),
+    "C04": dict(category="translation_validation", technique="runtime monitoring: per emitted program, class table from framework introspection compared with an independent rendering of the registry IR",
+                text="Translation validation per emitted program: loaded module vs independent rendering of ModelRegistry.models_map, field by field.", note=TB, ref="4 C04"),
 }
 NOT_YET = {}
 props = [json.loads(l) for l in open(os.path.join(HERE, "properties.jsonl"))]
